@@ -43,7 +43,8 @@ PROPS = {
     "C15": dict(fams=[("values", 1500, "fast"), ("alist", 1500, "fast"), ("consops", 2000, "fast"), ("consops", 500, "nofast")], mult=20),
     "C16": dict(fams=[("consops", 1200, "fast")], mult=1, special="depth"),
     "C17": dict(fams=[("malformed", 3000, "fast"), ("text", 600, "fast"), ("print", 800, "fast"), ("printall", 1, "fast"), ("escapes", 1, "fast"), ("chars", 1, "fast")], mult=10),
-    "C18": dict(fams=[("deser", 3000, "fast")], mult=20),
+    "C18": dict(fams=[("deser", 3000, "fast"), ("serde", 600, "fast")], mult=20),   # serde: the self-consistency clause re-serializes
+   
     "C19": dict(fams=[("prefix", 250, "fast"), ("malformed", 2000, "fast"), ("escapes", 1, "fast"), ("prefix", 80, "nofast"), ("serde", 200, "fast"), ("faults", 60, "fast")], mult=10),
     "C20": dict(fams=[("prims", 2500, "fast"), ("values", 800, "fast"), ("num", 800, "fast")], mult=20),
 }
@@ -251,7 +252,24 @@ def run_family(prop, fam, count, build, seed, workdir, shard):
     with open(ops, "rb") as fi, open(real, "wb") as fo:
         rc = subprocess.run([h, "exec", orac], stdin=fi, stdout=fo, stderr=subprocess.PIPE)
     if rc.returncode != 0:
-        return dict(tag=tag, error="harness exec died (signal/abort %s): %s" % (rc.returncode, rc.stderr.decode()[-500:]), ops=ops)
+        # which operation killed the process?  Run again with a progress file, then that operation alone.
+        killer = None
+        try:
+            prog = os.path.join(workdir, tag + ".progress")
+            with open(ops, "rb") as fi:
+                subprocess.run([h, "exec", orac + ".again"], stdin=fi, stdout=subprocess.DEVNULL, stderr=subprocess.DEVNULL,
+                               env=dict(os.environ, VERIF_PROGRESS=prog))
+            idx = int(open(prog).read().strip() or "0")
+            with open(ops, "rb") as fi:
+                lines = fi.read().split(b"\n")
+            op = lines[idx]
+            alone = subprocess.run([h, "exec", orac + ".alone"], input=op + b"\n", stdout=subprocess.DEVNULL, stderr=subprocess.DEVNULL)
+            if alone.returncode != 0:
+                killer = op.decode(errors="replace")
+        except Exception:
+            killer = None
+        return dict(tag=tag, error="harness exec died (signal/abort %s): %s" % (rc.returncode, rc.stderr.decode()[-500:]), ops=ops,
+                    killer=killer, code=rc.returncode)
     with open(ops, "rb") as fi, open(model, "wb") as fo:
         rc = subprocess.run([DRIVER], stdin=fi, stdout=fo, stderr=subprocess.PIPE)
     if rc.returncode != 0:
@@ -267,6 +285,8 @@ def collect(prop, runs):
             stats["disagreements"].append(dict(op="<family %s>" % r["tag"], real=r["error"], model="", family=r["tag"]))
             # the real-code side died part-way (an abort kills the process): what the oracle had written until then
             # still names failing inputs
+            if r.get("killer"):
+                stats["oracle"].append("FAIL %s the real code kills the process (exit %s) on this operation, alone\t%s" % (prop, r.get("code"), r["killer"]))
             orac = os.path.join(os.path.dirname(r.get("ops", "")), r["tag"] + ".oracle") if r.get("ops") else None
             if orac and os.path.exists(orac):
                 for line in open(orac, errors="replace"):
